@@ -431,9 +431,11 @@ func (st *StateDB) GetWithdrawQueue() *WithdrawQueue {
 
 func (st *StateDB) RemoveWithdrawRecords(index []int) bool {
 	queue, _ := st.getWithdrawQueue()
-	removedRecords := queue.RemoveRecords(index)
-	for _, record := range removedRecords {
-		st.validatorJournal.append(&validatorDelWithdrawChange{address: &record.Validator, prev: record})
+	// RemoveRecords compacts the slice in place: keep a copy so that a revert
+	// restores the records at their original positions.
+	prevRecords := append([]*WithdrawRecord(nil), queue.Records...)
+	if removedRecords := queue.RemoveRecords(index); len(removedRecords) > 0 {
+		st.validatorJournal.append(&validatorDelWithdrawChange{prevRecords: prevRecords})
 	}
 	return true
 }
